@@ -12,7 +12,9 @@ import (
 )
 
 type replayIn struct {
-	Kind string `json:"kind"`
+	History []string `json:"history"`
+	Index   int      `json:"index"`
+	Kind    string   `json:"kind"`
 	Via  string `json:"via"`
 	In   string `json:"in"`
 	Cuts []int  `json:"cuts"`
@@ -39,6 +41,23 @@ func runReplay(path, out string, c *collector, m *meta) {
 		fmt.Printf("replay reader: ok=%v consumed=%d err=%q\n", o.OK, o.Consumed, o.Err)
 		c.emit(in, rp.Cuts, o, "replay")
 		m.Kinds = append(m.Kinds, writeKind(out, "rcases", "rcase", "rcase_model_ok", "rcase_verdict", c.coq, c.js, 400, ""))
+	case "reader-history":
+		var ins [][]byte
+		for _, h := range rp.History {
+			b, _ := hex.DecodeString(h)
+			ins = append(ins, b)
+		}
+		hs := readHistory(ins)
+		if rp.Index < len(hs) {
+			o := hs[rp.Index]
+			fmt.Printf("replay reader-history: header %d of %d after all were read: ok=%v src=%s dst=%s\n", o.idx, len(ins), o.obs.OK,
+				addrStr(hdrSrc(o.obs.Hdr)), addrStr(hdrDst(o.obs.Hdr)))
+			c.emit(ins[o.idx], nil, o.obs, "replay history")
+			c.js[len(c.js)-1] = withHistory(c.js[len(c.js)-1].(rcaseJSON), ins, o.idx)
+		}
+		m.Kinds = append(m.Kinds, writeKind(out, "rcases", "rcase", "rcase_model_ok", "rcase_verdict", c.coq, c.js, 400, ""))
+	case "conn-history":
+		runConnHistory(out, m, 64)
 	case "v2":
 		o := readWith(vcaseInput(rp.VC, rp.Fam, rp.Len, rp.Seed), nil)
 		fmt.Printf("replay v2: ok=%v consumed=%d err=%q\n", o.OK, o.Consumed, o.Err)
@@ -74,4 +93,18 @@ func runReplay(path, out string, c *collector, m *meta) {
 		os.Exit(3)
 	}
 	writeMeta(out, *m)
+}
+
+func hdrSrc(h *proxyproto.Header) net.Addr {
+	if h == nil {
+		return nil
+	}
+	return h.Source
+}
+
+func hdrDst(h *proxyproto.Header) net.Addr {
+	if h == nil {
+		return nil
+	}
+	return h.Destination
 }
